@@ -320,12 +320,16 @@ class Verdict:
 # Evidence
 
 def write_evidence(pid, tier, level, coverage, assumptions, wall_s, violations=0, known=None):
-    os.makedirs(EVID, exist_ok=True)
+    evdir = EVID
+    if os.path.realpath(REPO) != "/repo":
+        # runs against a scratch worktree (seed tests, development) must not overwrite committed evidence
+        evdir = os.path.join(WORK, "evidence-scratch")
+    os.makedirs(evdir, exist_ok=True)
     ev = {"property_id": pid, "tier": tier, "seed": seed(), "level": level, "coverage": coverage,
           "assumptions": assumptions, "wall_s": round(wall_s, 2), "violations": violations}
     if known:
         ev["coverage"]["known_findings_hit"] = known
-    with open(os.path.join(EVID, pid + ".json"), "w") as fh:
+    with open(os.path.join(evdir, pid + ".json"), "w") as fh:
         json.dump(ev, fh, indent=1, default=str)
 
 
